@@ -106,6 +106,8 @@ pub fn load_known(prop: &str) -> Vec<Known> {
     out
 }
 
+pub fn is_known(prop: &str, sig: &str) -> bool { load_known(prop).iter().any(|k| sig_matches(&k.signature, sig)) }
+
 fn sig_matches(known: &str, sig: &str) -> bool {
     if let Some(prefix) = known.strip_suffix('*') { return sig.starts_with(prefix) }
     if known == sig { return true }
